@@ -122,7 +122,7 @@ func tokOf(v any) string {
 		sort.Strings(ks)
 		ss := make([]string, len(ks))
 		for i, k := range ks {
-			ss[i] = k + "=" + tokOf(v[k])
+			ss[i] = tokKey(k) + "=" + tokOf(v[k])
 		}
 		return "O(" + strings.Join(ss, ";") + ")"
 	case gojq.JQValue:
@@ -135,6 +135,30 @@ func tokOf(v any) string {
 	default:
 		return fmt.Sprintf("?%T", v)
 	}
+}
+
+// tokKey: object keys of RESULTS may hold any byte (from_urlquery, from_url …): everything outside
+// the printable, non-separator ASCII range is written as %xx so that a line stays one line
+func tokKey(k string) string {
+	clean := true
+	for i := 0; i < len(k); i++ {
+		if c := k[i]; c <= ' ' || c >= 0x7f || c == '%' {
+			clean = false
+			break
+		}
+	}
+	if clean {
+		return k
+	}
+	var b strings.Builder
+	for i := 0; i < len(k); i++ {
+		if c := k[i]; c <= ' ' || c >= 0x7f || c == '%' {
+			fmt.Fprintf(&b, "%%%02x", c)
+		} else {
+			b.WriteByte(c)
+		}
+	}
+	return b.String()
 }
 
 func mkBinary(b []byte, nbits int, unit int) any {
